@@ -145,6 +145,11 @@ class Gen(object):
             self.norm_rules(r, siblings, no_rename)
         for k in r:
             self.features.add(k)
+        if len(r) > 1 and self.chance(0.35):
+            # the order in which the rules are written is up to the schema author
+            keys = list(r)
+            self.r.shuffle(keys)
+            r = {k: r[k] for k in keys}
         return r
 
     def num_rules(self, r):
